@@ -16,7 +16,7 @@ import (
 //
 //	enum E      { ZERO=0 ONE=1 TWO=2 NEG=-1 BIG=2^31-1 }
 //	enum NZ     { NZ_A=3 NZ_B=5 }               (proto2 only: first value not zero; field f_nz=19)
-//	enum Other  { OTHER_ZERO OTHER_ONE }
+//	enum Other  { OTHER_ZERO=0 OTHER_ONE=1 OTHER_SEVEN=7 }   (7 is not a number of E; fields f_other=20 r_other=39 mv_other=79)
 //	message Sub { i int32 = 1; s string = 2 }
 //	message All {
 //	   f_<kind>   = 1..15   singular field of each of the 15 scalar kinds
@@ -134,7 +134,7 @@ func buildFileProto(syntax string) *descriptorpb.FileDescriptorProto {
 	enumE := &descriptorpb.EnumDescriptorProto{Name: proto.String("E")}
 	enumE.Value = []*descriptorpb.EnumValueDescriptorProto{ev("ZERO", 0), ev("ONE", 1), ev("TWO", 2), ev("NEG", -1), ev("BIG", 2147483647)}
 	enumO := &descriptorpb.EnumDescriptorProto{Name: proto.String("Other"),
-		Value: []*descriptorpb.EnumValueDescriptorProto{ev("OTHER_ZERO", 0), ev("OTHER_ONE", 1)}}
+		Value: []*descriptorpb.EnumValueDescriptorProto{ev("OTHER_ZERO", 0), ev("OTHER_ONE", 1), ev("OTHER_SEVEN", 7)}}
 
 	fld := func(name string, num int32, label *descriptorpb.FieldDescriptorProto_Label, typ descriptorpb.FieldDescriptorProto_Type, typeName string) *descriptorpb.FieldDescriptorProto {
 		f := &descriptorpb.FieldDescriptorProto{Name: proto.String(name), Number: proto.Int32(num), Label: label, Type: typ.Enum(), JsonName: nil}
@@ -190,6 +190,16 @@ func buildFileProto(syntax string) *descriptorpb.FileDescriptorProto {
 	}
 	for i, kind := range allKindNames {
 		addMap("mv_"+kind, int32(61+i), "string", kind)
+	}
+	// fields of the second enum type (cross-type view assignment)
+	all.Field = append(all.Field, fld("f_other", 20, opt, tEnum, "Other"), fld("r_other", 39, rep, tEnum, "Other"))
+	{
+		all.NestedType = append(all.NestedType, &descriptorpb.DescriptorProto{
+			Name:    proto.String("MvOtherEntry"),
+			Field:   []*descriptorpb.FieldDescriptorProto{fld("key", 1, opt, tString, ""), fld("value", 2, opt, tEnum, "Other")},
+			Options: &descriptorpb.MessageOptions{MapEntry: proto.Bool(true)},
+		})
+		all.Field = append(all.Field, fld("mv_other", 79, rep, tMsg, "All.MvOtherEntry"))
 	}
 	// oneof choice
 	all.OneofDecl = append(all.OneofDecl, &descriptorpb.OneofDescriptorProto{Name: proto.String("choice")})
